@@ -473,27 +473,37 @@ def mat(v, kids: dict):  # noqa: ANN001, ANN201
     return v
 
 
-def enum_calls(spec: Spec, seed: int, dev: int, wide: bool) -> list[tuple]:
+def enum_calls(spec: Spec, seed: int, b: dict) -> list[tuple]:
     """
-    All constructor calls of the bounded instance space, as (style, args, kwargs, valid) with descriptor values.
+    All constructor calls of the bounded instance space, as (style, args, kwargs, valid, deviations) with
+    descriptor values.
 
-    Vectors: the base instance and every instance that differs from it in at most ``dev`` fields, each field
-    ranging over its whole alphabet.  Styles: P positional (every vector); K keyword, M mixed, PD/KD relying on
-    the default (base vector; with ``wide`` every vector); and malformed calls on the base vector of hook-free
-    flat programs (they only feed statistics: the oracle is one-directional).  The base vector comes first.
+    Bounds ``b``: ``trim`` = number of valid alphabet values per field (None: all; the alphabet is rotated by the
+    seed first, so different seeds use different slices) plus one refused value; ``dev`` = the base instance and
+    every instance that differs from it in at most ``dev`` fields, each field ranging over its whole (trimmed)
+    alphabet; ``wide`` = the largest deviation count whose vectors also get the K keyword, M mixed and PD/KD
+    default-relying styles (P positional is applied to every vector).  Malformed calls are made on the base
+    vector of hook-free flat programs (they only feed statistics: the oracle is one-directional).
+    The base vector comes first.
     """
     nf = len(spec.fields)
-    alpha = [spec.field_values(i) for i in range(nf)]
-    base = [a[0][(seed + i) % len(a[0])] for i, a in enumerate(alpha)]
-    vectors = [tuple(base)]
-    for d in range(1, dev + 1):
+    alpha = []
+    for i in range(nf):
+        valid, invalid = spec.field_values(i)
+        r = (seed + i) % len(valid)
+        valid = valid[r:] + valid[:r]
+        if b["trim"]:
+            valid, invalid = valid[:b["trim"]], invalid[:1]
+        alpha.append(valid + invalid)
+    base = [a[0] for a in alpha]
+    vectors = [(0, tuple(base))]
+    for d in range(1, b["dev"] + 1):
         for pos in combinations(range(nf), d):
-            choices = [[v for v in alpha[p][0] + alpha[p][1] if v is not base[p]] for p in pos]
-            for combo in product(*choices):
+            for combo in product(*[alpha[p][1:] for p in pos]):
                 vec = list(base)
                 for p, v in zip(pos, combo):
                     vec[p] = v
-                vectors.append(tuple(vec))
+                vectors.append((d, tuple(vec)))
 
     def flat(vec: tuple) -> list:
         out = []
@@ -508,12 +518,12 @@ def enum_calls(spec: Spec, seed: int, dev: int, wide: bool) -> list[tuple]:
         k = repr((style, args, kwargs))
         if k not in seen:
             seen.add(k)
-            calls.append((style, args, kwargs, valid, n == 0))
+            calls.append((style, args, kwargs, valid, n))
 
-    for n, vec in enumerate(vectors):
+    for n, vec in vectors:
         vals = flat(vec)
         add("P", vals, {})
-        if n == 0 or wide:
+        if n <= b["wide"]:
             add("K", [], dict(reversed(list(zip(names, vals)))))
             if len(names) > 1:
                 add("M", vals[:1], dict(zip(names[1:], vals[1:])))
@@ -604,7 +614,7 @@ def _show(x) -> str:  # noqa: ANN001
 # one program
 # ------------------------------------------------------------------------------------------------
 
-def evaluate(defn: dict, seed: int, dev: int, wide: bool, only_call: int | None = None) -> tuple[Counter, list]:
+def evaluate(defn: dict, seed: int, b: dict, only_call: int | None = None) -> tuple[Counter, list]:
     """
     Returns (statistics, violations); a violation is a dict(oracle, form, style, call, detail, exc).
     At most one violation per (oracle, form) is kept per program.
@@ -622,12 +632,14 @@ def evaluate(defn: dict, seed: int, dev: int, wide: bool, only_call: int | None 
             viol.append({"oracle": oracle, "form": form, "dc_style": style, "call": call, "detail": detail, "exc": exc})
 
     if spec.lib is not None:
-        forms.append(("shipped", None, spec.lib, ikids))
-    try:
-        forms.append(("compiled", None, build_plain(spec, kids_for("compiled"), compiled=True), kids_for("compiled")))
-    except Exception as e:  # noqa: BLE001
-        build_failed["compiled"] = type(e).__name__
-        found("build", "compiled", None, None, f"vp_compile raises {_exc(e)[0]}: {_exc(e)[1]}", type(e).__name__)
+        forms.append(("shipped", None, spec.lib, ikids))      # the class as shipped is the compiled form
+    else:
+        try:
+            ckids = kids_for("compiled")
+            forms.append(("compiled", None, build_plain(spec, ckids, compiled=True), ckids))
+        except Exception as e:  # noqa: BLE001
+            build_failed["compiled"] = type(e).__name__
+            found("build", "compiled", None, None, f"vp_compile raises {_exc(e)[0]}: {_exc(e)[1]}", type(e).__name__)
     for style in dc_styles(spec):
         try:
             dkids = kids_for("dataclass")
@@ -640,7 +652,7 @@ def evaluate(defn: dict, seed: int, dev: int, wide: bool, only_call: int | None 
     st["programs"] += 1
     st["forms_built"] += len(forms)
 
-    calls = enum_calls(spec, seed, dev, wide)
+    calls = enum_calls(spec, seed, b)
     for idx, call in enumerate(calls):
         if only_call is not None and idx != only_call:
             continue
@@ -657,8 +669,8 @@ def evaluate(defn: dict, seed: int, dev: int, wide: bool, only_call: int | None 
             st["nontrivial"] += 1
         compiled_bad = None
         for form, style, cls, kids in forms:
-            if not wide and style not in (None, "typevar") and not call[4]:
-                continue    # quick tier: the extra annotation styles only change format_list; base vector suffices
+            if style not in (None, "typevar") and call[4] > b["wide"]:
+                continue    # the extra annotation styles only change format_list: same vectors as the extra call styles
             got = run_call(spec, cls, kids, call)
             st["form_executions"] += 1
             v = compare(ref, got)
@@ -668,7 +680,7 @@ def evaluate(defn: dict, seed: int, dev: int, wide: bool, only_call: int | None 
                 st["reference_rejects_but_form_accepts"] += 1
                 continue
             exc = got[v[0]][0] if v[0] in ("construct", "pack", "unpack") else ""
-            if form == "compiled":
+            if form in ("compiled", "shipped"):
                 compiled_bad = (v[0], exc)
             elif form == "dataclass" and (compiled_bad == (v[0], exc) or
                                           (v[0] == "construct" and "compiled" in build_failed)):
@@ -745,47 +757,97 @@ def _seqs(alphabet: list, n: int) -> list[tuple]:
     return [s for s in product(alphabet, repeat=n) if "raw" not in s[:-1]]
 
 
-def gen_defs(thorough: bool) -> tuple[list[dict], dict]:
-    seqs = [(f,) for f in [*REGISTERED, "payload", "payload-list"]]
-    seqs += _seqs(CORE, 2)
-    seqs += _seqs(CORE if thorough else SMALL, 3)
-    if thorough:
-        seqs += _seqs(SMALL, 4)
-    defs = []
-    for s in seqs:
-        n_names = sum(8 if f == "bits" else 1 for f in s)
-        last = n_names - 1
-        hook_sets = [(), ((0, "both"),), ((last, "both"),), ((last, "pack"),), ((0, "unpack"),)]
-        if thorough:
-            hook_sets += [((0, "pack"),), ((last, "unpack"),), ((0, "both"), (last, "both"))]
-            if s[0] == "bits":
-                hook_sets.append(((3, "both"),))
-        uniq = []
-        for h in hook_sets:
-            h = tuple(sorted(dict(h).items()))
-            if h not in uniq:
-                uniq.append(h)
-        shapes = ["flat", "wid"] + (["derived"] if len(s) > 1 else []) + (["derived-pb"] if len(s) > 1 and thorough else [])
-        for dflt in [None, *DEFAULTS.get(s[-1], []), "none"]:
-            for h in uniq:
-                for shape in shapes:
+HOOKS_BASIC = ["", "both@first", "both@last", "pack@last", "unpack@first"]
+HOOKS_MORE = ["pack@first", "unpack@last", "both@first,both@last", "both@bit3"]
+# Program blocks.  (hook set, shape) combinations - PAIRS: every hook set on the flat shape, the other shapes without hooks and
+# with a hook pair on the last name; FULL: the whole product.
+BLOCKS = {
+    # name: (format alphabet, length, combination mode, hook sets, shapes, instance bounds)
+    "quick": [
+        ("ALL", 1, "FULL", HOOKS_BASIC, ["flat", "wid"], {"dev": 1, "wide": 0, "trim": 2}),
+        ("CORE", 2, "PAIRS", HOOKS_BASIC, ["flat", "wid", "derived"], {"dev": 1, "wide": 0, "trim": 2}),
+        ("SMALL", 3, "PAIRS", HOOKS_BASIC, ["flat", "wid", "derived"], {"dev": 1, "wide": 0, "trim": 2}),
+        ("ROT12/4", 12, "PAIRS", HOOKS_BASIC, ["flat", "wid", "derived"], {"dev": 1, "wide": 0, "trim": 2}),
+    ],
+    "thorough": [
+        ("ALL", 1, "FULL", HOOKS_BASIC + HOOKS_MORE, ["flat", "wid"], {"dev": 1, "wide": 1, "trim": None}),
+        ("CORE", 2, "FULL", HOOKS_BASIC + HOOKS_MORE, ["flat", "wid", "derived", "derived-pb"],
+         {"dev": 2, "wide": 1, "trim": None}),
+        ("SMALL", 3, "FULL", HOOKS_BASIC + HOOKS_MORE, ["flat", "wid", "derived", "derived-pb"],
+         {"dev": 2, "wide": 1, "trim": 3}),
+        ("CORE", 3, "PAIRS", HOOKS_BASIC, ["flat", "wid", "derived"], {"dev": 1, "wide": 0, "trim": 3}),
+        ("SMALL", 4, "PAIRS", HOOKS_BASIC, ["flat", "wid", "derived"], {"dev": 1, "wide": 0, "trim": 2}),
+        ("ROT12/1", 12, "PAIRS", HOOKS_BASIC, ["flat", "wid", "derived"], {"dev": 1, "wide": 0, "trim": 2}),
+    ],
+}
+
+
+def _rot12(step: int) -> list[tuple]:
+    """12-field programs: the rotations of the twelve CORE formats other than 'raw' (so 'bits', the nested payload
+    and the list visit every position); every other one ends in 'raw' and has 'I' in place of 'bits', which makes
+    it expressible as a dataclass."""
+    ring = [f for f in CORE if f != "raw"]
+    out = []
+    for k in range(0, len(ring), step):
+        seq = ring[k:] + ring[:k]
+        if (k // step) % 2:
+            seq = ["I" if f == "bits" else f for f in seq[:-1]] + ["raw"]
+        out.append(tuple(seq))
+    return out
+
+
+def _hook_set(token: str, seq: tuple) -> list | None:
+    """'both@first,both@last' -> [[name index, mode], ...]; None if the position does not exist in this sequence."""
+    n_names = sum(8 if f == "bits" else 1 for f in seq)
+    out = {}
+    for part in filter(None, token.split(",")):
+        mode, _, pos = part.partition("@")
+        if pos == "bit3" and seq[0] != "bits":
+            return None
+        out[{"first": 0, "last": n_names - 1, "bit3": 3}[pos]] = mode
+    return [[i, m] for i, m in sorted(out.items())]
+
+
+def gen_defs(tier: str) -> tuple[list[tuple], list[dict]]:
+    """Every program of the tier, as (definition, instance bounds); programs covered by an earlier block are skipped."""
+    alphabets = {"ALL": [*REGISTERED, "payload", "payload-list"], "CORE": CORE, "SMALL": SMALL}
+    items, seen, summary = [], set(), []
+    for alpha, length, mode, hook_tokens, shapes, b in BLOCKS[tier]:
+        n0 = len(items)
+        seqs = _rot12(int(alpha[6:])) if alpha.startswith("ROT12") else _seqs(alphabets[alpha], length)
+        for s in seqs:
+            hook_sets = []
+            for t in hook_tokens:
+                h = _hook_set(t, s)
+                if h is not None and h not in hook_sets:
+                    hook_sets.append(h)
+            ok_shapes = [x for x in shapes if length > 1 or not x.startswith("derived")]
+            if mode == "FULL":
+                combos = [(h, x) for h in hook_sets for x in ok_shapes]
+            else:
+                pair = _hook_set("both@last", s)
+                combos = [(h, "flat") for h in hook_sets] + [(h, x) for x in ok_shapes[1:] for h in ([], pair)]
+            for dflt in [None, *DEFAULTS.get(s[-1], []), "none"]:
+                for h, shape in combos:
                     d = {"f": list(s)}
                     if dflt is not None:
                         d["dflt"] = dflt
                     if h:
-                        d["hooks"] = [list(x) for x in h]
+                        d["hooks"] = h
                     if shape != "flat":
                         d["shape"] = shape
-                    defs.append(d)
-    bounds = {
-        "formats_length_1": len(REGISTERED) + 2, "formats_length_2": CORE, "formats_length_3": CORE if thorough else SMALL,
-        "formats_length_4": SMALL if thorough else None, "format_sequences": len(seqs),
-        "defaults_on_last_field": "none | every format-appropriate token of DEFAULTS | None",
-        "hooks": "none | both@first | both@last | pack@last | unpack@first"
-                 + (" | pack@first | unpack@last | both@first+last | both@bit3" if thorough else ""),
-        "shapes": ["flat", "wid", "derived"] + (["derived-pb"] if thorough else []),
-    }
-    return defs, bounds
+                    k = json.dumps(d, sort_keys=True)
+                    if k not in seen:
+                        seen.add(k)
+                        items.append((d, b))
+        fmts = {"ALL": f"all {len(alphabets['ALL'])} registered formats"}.get(alpha, alphabets.get(alpha, CORE))
+        summary.append({"formats": fmts if not alpha.startswith("ROT12") else "every %s rotation of CORE" % (
+                            {"1": "", "4": "4th"}[alpha[6:]]),
+                        "length": length, "format_sequences": len(seqs),
+                        "defaults_on_last_field": "absent | every format-appropriate value in DEFAULTS | None",
+                        "hook_sets": hook_tokens, "shapes": shapes, "hooks_x_shapes": mode, "instance_bounds": b,
+                        "programs": len(items) - n0})
+    return items, summary
 
 
 def lib_defs() -> list[dict]:
@@ -819,7 +881,7 @@ def signature(defn: dict, v: dict) -> str:
     if "dflt" in defn:
         fmts = fmts[:-1]     # the format carrying the default says nothing the default's type does not
         parts.append("default=" + defn["dflt"].partition(":")[0])
-    if fmts:
+    if any(x != "H" for x in fmts):      # "H" is what the reducer turns every irrelevant format into
         parts.insert(0, "fmt=" + "+".join(fmts))
     if defn.get("hooks"):
         spec = Spec(defn)
@@ -829,7 +891,7 @@ def signature(defn: dict, v: dict) -> str:
         parts.append("shape=" + defn["shape"])
     if v["form"] == "dataclass" and v["dc_style"] not in (None, "typevar"):
         parts.append("style=" + v["dc_style"])
-    return "|".join(parts)
+    return "|".join(parts) or "fmt=" + "+".join(defn["f"])
 
 
 def _shrinks(defn: dict) -> list[dict]:
@@ -861,17 +923,34 @@ def _shrinks(defn: dict) -> list[dict]:
         if hooks:
             d["hooks"] = hooks
         out.append(d)
+    # generalise: a field whose format does not matter becomes the plainest one ("H"); the field that carries the
+    # default keeps its format, so that the default stays one that real code would write
+    for i in range(len(f)):
+        if f[i] == "H" or (i == len(f) - 1 and "dflt" in defn):
+            continue
+        width = names_before[i + 1] - names_before[i]
+        hooks = {}
+        for j, m in defn.get("hooks", []):
+            if names_before[i] <= j < names_before[i + 1]:
+                hooks.setdefault(names_before[i], m)
+            else:
+                hooks.setdefault(j - (width - 1) if j >= names_before[i + 1] else j, m)
+        d = {**defn, "f": [*f[:i], "H", *f[i + 1:]]}
+        d.pop("hooks", None)
+        if hooks:
+            d["hooks"] = [[j, m] for j, m in sorted(hooks.items())]
+        out.append(d)
     return out
 
 
-def reduce_violation(defn: dict, v: dict, seed: int, dev: int, wide: bool) -> tuple[dict, dict]:
+def reduce_violation(defn: dict, v: dict, seed: int, b: dict) -> tuple[dict, dict]:
     """Greedy reduction of the program while the same (oracle, form, dataclass style) keeps failing."""
     if "lib" in defn:
         return defn, v
 
     def fails(d: dict):  # noqa: ANN202
         try:
-            _, vs = evaluate(d, seed, dev, wide)
+            _, vs = evaluate(d, seed, b)
         except Exception:  # noqa: BLE001 - a shrink can be ill-formed (e.g. default no longer fits); just skip it
             return None
         for x in vs:
@@ -890,11 +969,11 @@ def reduce_violation(defn: dict, v: dict, seed: int, dev: int, wide: bool) -> tu
     return defn, v
 
 
-def make_violation(defn: dict, v: dict, seed: int, dev: int, wide: bool) -> core.Violation:
+def make_violation(defn: dict, v: dict, seed: int, b: dict) -> core.Violation:
     key = f"{v['oracle']}:{v['form']}:{signature(defn, v)}"
     what = (f"{v['form']} form departs from the interpreted definition at stage '{v['oracle']}': {v['detail']}\n"
             + render(defn, v["dc_style"] or "typevar"))
-    return core.Violation(key, what, {"defn": defn, "seed": seed, "dev": dev, "wide": wide, "call": v["call"],
+    return core.Violation(key, what, {"defn": defn, "seed": seed, "bounds": b, "call": v["call"],
                                       "oracle": v["oracle"], "form": v["form"], "dc_style": v["dc_style"]})
 
 
@@ -903,74 +982,74 @@ def make_violation(defn: dict, v: dict, seed: int, dev: int, wide: bool) -> core
 # ------------------------------------------------------------------------------------------------
 
 _CFG: dict = {}
+LIB_BOUNDS = {"quick": {"dev": 1, "wide": 0, "trim": 2}, "thorough": {"dev": 2, "wide": 1, "trim": None}}
 
 
 def _work(chunk: list) -> list:
     st: Counter = Counter()
     reps: dict = {}
-    for defn in chunk:
+    for defn, b in chunk:
         try:
-            s, viol = evaluate(defn, _CFG["seed"], _CFG["dev"], _CFG["wide"])
+            s, viol = evaluate(defn, _CFG["seed"], b)
         except Exception as e:  # noqa: BLE001
             import traceback
             s, viol = Counter(harness_errors=1), []
             reps.setdefault("harness-error:" + type(e).__name__,
-                            (defn, {"oracle": "harness-error", "form": "-", "dc_style": None, "call": None,
-                                    "detail": traceback.format_exc()[-800:], "exc": type(e).__name__}))
+                            (defn, b, {"oracle": "harness-error", "form": "-", "dc_style": None, "call": None,
+                                       "detail": f"{defn}\n{traceback.format_exc()[-1500:]}", "exc": type(e).__name__}))
         st.update(s)
         if viol:
             st["programs_with_violations"] += 1
         for v in viol:
             k = raw_key(defn, v)
             if k not in reps or def_size(defn) < def_size(reps[k][0]):
-                reps[k] = (defn, v)
+                reps[k] = (defn, b, v)
     return [(dict(st), reps)]
 
 
 def _reduce_work(chunk: list) -> list:
-    return [reduce_violation(d, v, _CFG["seed"], _CFG["dev"], _CFG["wide"]) for d, v in chunk]
+    return [(*reduce_violation(d, v, _CFG["seed"], b), b) for d, b, v in chunk]
 
 
 MAX_REDUCED = 256
 
 
 def run(ctx: core.Ctx) -> core.Report:
-    dev, wide = (2, True) if ctx.thorough else (1, False)
-    _CFG.update(seed=ctx.seed, dev=dev, wide=wide)
+    _CFG.update(seed=ctx.seed)
     for form in ("interp", "compiled", "dataclass"):
         kids_for(form)
-    gen, bounds = gen_defs(ctx.thorough)
-    lib = lib_defs()
-    defs = lib + gen
+    gen, bounds = gen_defs(ctx.tier)
+    lib = [(d, LIB_BOUNDS[ctx.tier]) for d in lib_defs()]
+    # most expensive programs first, so that the pool does not end on a long tail
+    items = sorted(lib + gen, key=lambda x: (-x[1]["dev"], -x[1]["wide"], -len(x[0].get("f", "x" * 9))))
     st: Counter = Counter()
     reps: dict = {}
-    for s, r in core.pmap(_work, defs, ctx.jobs, chunk=48):
+    for s, r in core.pmap(_work, items, ctx.jobs, chunk=32):
         st.update(s)
-        for k, (d, v) in r.items():
-            if k not in reps or def_size(d) < def_size(reps[k][0]):
-                reps[k] = (d, v)
+        for k, rep in r.items():
+            if k not in reps or def_size(rep[0]) < def_size(reps[k][0]):
+                reps[k] = rep
     ordered = [reps[k] for k in sorted(reps)]
-    exhaustive = len(ordered) <= MAX_REDUCED
-    errors = [x for x in ordered if x[1]["oracle"] == "harness-error"]
-    todo = [x for x in ordered if x[1]["oracle"] != "harness-error"][:MAX_REDUCED]
+    errors = [x for x in ordered if x[2]["oracle"] == "harness-error"]
+    if errors:
+        # a crash of the harness itself is not a verdict about the library
+        core.eprint("C20: harness error on " + errors[0][2]["detail"])
+        sys.exit(2)
     final: dict = {}
-    for d, v in core.pmap(_reduce_work, todo, ctx.jobs, chunk=1) if todo else []:
-        viol = make_violation(d, v, ctx.seed, dev, wide)
+    for d, v, b in core.pmap(_reduce_work, ordered[:MAX_REDUCED], ctx.jobs, chunk=1) if ordered else []:
+        viol = make_violation(d, v, ctx.seed, b)
         if viol.key not in final or def_size(d) < def_size(final[viol.key].replay["defn"]):
             final[viol.key] = viol
     violations = [final[k] for k in sorted(final)]
-    if errors:
-        # a crash of the harness itself is not a verdict about the library
-        core.eprint("C20: harness error:\n" + errors[0][1]["detail"])
-        sys.exit(2)
 
     samples = []
-    for d in (lib[0], gen[len(gen) // 3], gen[-1]):
+    for d, b in (lib[0], gen[len(gen) // 3], gen[-1]):
         spec = Spec(d)
-        call = enum_calls(spec, ctx.seed, dev, wide)[0]
+        call = enum_calls(spec, ctx.seed, b)[0]
         r = run_call(spec, build_plain(spec, kids_for("interp"), compiled=False), kids_for("interp"), call)
         samples.append({"definition": d, "source": render(d), "call": _call_source(call),
                         "reference_bytes": r.get("bytes", b"").hex(), "reference_outcome": sorted(r)})
+    own = ("calls", "nontrivial", "programs", "form_executions", "forms_built")
     cov = {
         "evaluations": st["calls"],
         "distinct_nontrivial": st["nontrivial"],
@@ -980,18 +1059,20 @@ def run(ctx: core.Ctx) -> core.Report:
                 "case; it is counted non-trivial when the interpreted reference accepted the call, packed it to at "
                 "least one byte and decoded it again (only then are all three comparisons made).",
         "samples": samples,
-        "exhaustive": exhaustive,
+        "exhaustive": len(ordered) <= MAX_REDUCED,
         "programs": st["programs"],
         "programs_generated": len(gen),
         "programs_shipped_classes": len(lib),
         "form_executions": st["form_executions"],
         "forms_built": st["forms_built"],
-        "instance_bound": f"base instance (rotated by VERIF_SEED) plus every instance differing from it in <= {dev} "
-                          f"field(s) over the whole per-format alphabet; keyword/mixed/default-relying call styles on "
-                          + ("every vector" if wide else "the base vector"),
-        "program_bounds": bounds,
-        "statistics": {k: st[k] for k in sorted(st) if k not in ("calls", "nontrivial", "programs", "form_executions",
-                                                                 "forms_built")},
+        "program_blocks": bounds,
+        "shipped_classes_instance_bounds": LIB_BOUNDS[ctx.tier],
+        "instance_bounds_legend": "dev: the base instance (alphabet rotated by VERIF_SEED) and every instance that "
+                                  "differs from it in <= dev fields over the field's whole alphabet; trim: alphabet "
+                                  "values per field used (null = all) plus one value the packer refuses; wide: "
+                                  "largest deviation count whose vectors also get the keyword / mixed / "
+                                  "default-relying call styles and the extra dataclass annotation styles",
+        "statistics": {k: st[k] for k in sorted(st) if k not in own},
         "violating_symptom_classes": len(ordered),
         "explanation": "Differential check of vp_compile'd and dataclass payload definitions against the interpreted "
                        "VariablePayload definition over every program within the stated bounds, plus every shipped "
@@ -1001,20 +1082,21 @@ def run(ctx: core.Ctx) -> core.Report:
         "the interpreted VariablePayload form is the reference (no independent wire codec: that is C02's job)",
         "one-directional, as the statement reads: calls the interpreted form itself rejects (malformed argument "
         "lists, unpackable values) put no obligation on the other forms; they are executed and counted only",
-        "a definition the @dataclass decorator itself refuses (mutable default, 'bits' needing eight names for one "
-        "field) has no dataclass form and is counted as inexpressible, not as a violation",
-        "a dataclass failure that the compiled form of the same program shows with the same exception type is "
-        "reported once, under the compiled form (DataClassPayload is built on vp_compile)",
+        "a definition the @dataclass decorator itself refuses (unhashable default object, 'bits' needing eight names "
+        "for one field) has no dataclass form and is counted as inexpressible, not as a violation",
+        "a dataclass failure that the compiled form of the same program shows as well (same stage and exception "
+        "type, or vp_compile failing outright) is reported once, under the compiled form: DataClassPayload is "
+        "built on vp_compile",
         "a list-valued default is spelled field(default_factory=...) in the dataclass form, the only spelling "
         "dataclasses allow; custom __init__ bodies other than the documented default-forwarding one are out of scope",
-        "values are compared with their Python type (1 and True are different)",
+        "values are compared together with their Python type (1 and True are different)",
     ])
 
 
 def replay(ctx: core.Ctx, data: dict) -> list:
-    _, viol = evaluate(data["defn"], data["seed"], data["dev"], data["wide"])
+    _, viol = evaluate(data["defn"], data["seed"], data["bounds"])
     out = []
     for v in viol:
         if (v["oracle"], v["form"]) == (data["oracle"], data["form"]):
-            out.append(make_violation(data["defn"], v, data["seed"], data["dev"], data["wide"]))
+            out.append(make_violation(data["defn"], v, data["seed"], data["bounds"]))
     return out
